@@ -232,7 +232,12 @@ def replay_state(st: dict, out: dict) -> None:
                                       f"specification's state machine says it {'has none' if has else 'has one'}")
                 elif has:
                     saved = w.counter.starts if w.counter is not None else 0
-                    got = payload_rows(node, proc)
+                    try:
+                        got = payload_rows(node, proc)
+                    except Exception as exc:  # noqa: BLE001
+                        V(["C10"], f"the payload of materialization {name!r} is not the payload that was attached first "
+                                   f"(reading it raised {type(exc).__name__})")
+                        continue
                     if w.counter is not None:
                         w.counter.starts = saved
                     want = [r if isinstance(r, dict) else {} for r in model[1]]
